@@ -132,6 +132,8 @@ def armed (es : Slab ExecTask) (w : World) (c : Nat) : Prop :=
 structure Qc (es : Slab ExecTask) (w : World) (c : Nat) : Prop where
   a : sched es w c ∨ armed es w c
   b : w.aborted c = false → Nw w c → sched es w c
+  /-- a command whose host is not about to poll it is not done: a finished command does not stay hosted -/
+  d : sched es w c ∨ w.isDoneNow c = false
 
 theorem sched.step {me : Option Nat} {es : Slab ExecTask} {w w' : World} {c : Nat} (q : QS me w w') (h : sched es w c) :
     sched es w' c := by
@@ -150,7 +152,15 @@ theorem Qa.step {me : Option Nat} {es : Slab ExecTask} {w w' : World} {c : Nat} 
 theorem Qc.step {me : Option Nat} {es : Slab ExecTask} {w w' : World} {c : Nat} (q : QS me w w') (hc : some c ≠ me)
     (h : Qc es w c) : Qc es w' c := by
   have a' := Qa.step q h.a
-  refine ⟨a', ?_⟩
+  refine ⟨a', ?_, ?_⟩
+  rotate_left
+  · rcases h.d with s | hd
+    · exact Or.inl (s.step q)
+    · refine Or.inr ?_
+      have o := q.other c hc
+      unfold World.isDoneNow at hd ⊢
+      simp only at hd ⊢
+      rw [o.1, o.2.2.1, o.2.2.2]; exact hd
   intro hna hn
   have hna0 : w.aborted c = false := by
     cases ha : w.aborted c with
@@ -175,7 +185,7 @@ theorem Qc.of_same {es : Slab ExecTask} {w w' : World} {c : Nat} (h : Qc es w c)
     · exact Or.inl ⟨e, he, hr e hr'⟩
     · exact Or.inr (hs _ h)
   have hab : w'.aborted c = w.aborted c := by simp [World.aborted, World.getMeta, hc, hm]
-  refine ⟨?_, ?_⟩
+  refine ⟨?_, ?_, ?_⟩
   · rcases h.a with s | ⟨e, hw, he⟩
     · exact Or.inl (sc s)
     · exact Or.inr ⟨e, by rw [hc]; exact hw, he⟩
@@ -184,6 +194,9 @@ theorem Qc.of_same {es : Slab ExecTask} {w w' : World} {c : Nat} (h : Qc es w c)
     unfold Nw at hn
     rw [hc] at hn
     exact sc (h.b hna hn)
+  · rcases h.d with s | hd
+    · exact Or.inl (sc s)
+    · exact Or.inr (by unfold World.isDoneNow at hd ⊢; rw [hc]; exact hd)
 
 theorem dropTask_qs' (me : Option Nat) (dc : Nat → World → World) (w : World) (t : Task) (ht : hostFreeB t.fut = true) :
     QS me w (dropTask dc t w) := by
@@ -252,7 +265,7 @@ theorem Qc.transport {es es' : Slab ExecTask} {w w' : World} {c : Nat} (h : Qc e
     (hm : w'.metas = w.metas) (hs : sched es w c → sched es' w' c) (hh : ∀ e, hostedBy es c e → hostedBy es' c e) :
     Qc es' w' c := by
   have hab : w'.aborted c = w.aborted c := by simp [World.aborted, World.getMeta, hc, hm]
-  refine ⟨?_, ?_⟩
+  refine ⟨?_, ?_, ?_⟩
   · rcases h.a with s | ⟨e, hw, he⟩
     · exact Or.inl (hs s)
     · exact Or.inr ⟨e, by rw [hc]; exact hw, hh e he⟩
@@ -261,6 +274,9 @@ theorem Qc.transport {es es' : Slab ExecTask} {w w' : World} {c : Nat} (h : Qc e
     unfold Nw at hn
     rw [hc] at hn
     exact hs (h.b hna hn)
+  · rcases h.d with s | hd
+    · exact Or.inl (hs s)
+    · exact Or.inr (by unfold World.isDoneNow at hd ⊢; rw [hc]; exact hd)
 
 def flatCmd : Cmd → Bool
   | .done | .event _ _ | .notify _ _ | .req _ _ _ | .stream _ _ _ | .chain _ _ _ _ _ => true
@@ -367,7 +383,7 @@ theorem spawnerLoop_q (es : Slab ExecTask) (etid c : Nat) (hh : hostedBy es c et
       intro x hx hal
       by_cases e : x = c
       · subst e
-        refine ⟨a5, ?_⟩
+        refine ⟨a5, ?_, Or.inr (pollNextF_pending _ _ _ _ _ hp)⟩
         intro hna hn
         exact absurd hn (a6 rfl hna)
       · exact a4 x hx hal e
